@@ -267,7 +267,7 @@ def run_schedule(case):
             effective.append(tid)
         # completion: round-robin until every worker is finished (recorded, replayed in Coq)
         ids = [TERM] + sorted(h.workers)
-        for _ in range(case.get("completion_rounds", 80)):
+        for _ in range(case.get("completion_rounds", 400)):
             if all(w.finished for w in h.workers.values()):
                 break
             for tid in ids:
@@ -299,15 +299,18 @@ def mp_probe_setup():
     return probe, nested
 
 
-def mp_child(arr, base, n, hold, start_grand, method):
+def mp_child(arr, ready, go, base, n, hold, grand_base, use_ctx):
+    import multiprocessing as mp
+
     probe, nested = mp_probe_setup()
     kids = []
-    if start_grand:
-        import multiprocessing as mp
-        ctx = mp.get_context(method)
-        k = ctx.Process(target=mp_child, args=(arr, base + n, n, hold, False, method))
+    if grand_base is not None:
+        P = mp.get_context().Process if use_ctx else mp.Process
+        k = P(target=mp_child, args=(arr, ready, go, grand_base, n, hold, None, use_ctx))
         k.start()
         kids.append(k)
+    ready[base // n] = 1
+    go.wait(60)
     for i in range(n):
         (nested if i % 2 else probe)(arr, base + i, hold)
     for k in kids:
@@ -315,27 +318,57 @@ def mp_child(arr, base, n, hold, start_grand, method):
 
 
 def run_mp(case):
-    """Parent threads + children (+ a grandchild) hammer the probe; returns the stamps."""
+    """Two parent threads, two children and a grandchild call the probe at the same time;
+    one parent thread is already calling it while the first child is started (the lock is
+    swapped under its feet).  Returns the enter/exit stamps.
+
+    control=True uses `get_context().Process` (NOT a subclass of `multiprocessing.Process`,
+    hence not wrapped by the library: children are not handed the lock) to show that the
+    experiment does observe overlaps when the hand-over is missing."""
     import multiprocessing as mp
     import time
 
     m = case["mp"]
-    method, n, hold = m["method"], m["calls"], m["hold"]
+    method, n, hold, control = m["method"], m["calls"], m["hold"], m.get("control", False)
     if U._tty_fd == -1:
         return {"skipped": "no terminal found at import (Process.start not wrapped)"}
-    assert mp.Process.start.__name__ == "start" and hasattr(mp.Process.start, "__wrapped__")
-    ctx = mp.get_context(method)
-    groups = 2 + 2 + 1  # two parent threads, two children, one grandchild
-    arr = ctx.Array("q", 2 * n * groups, lock=False)
+    assert hasattr(mp.Process.start, "__wrapped__") and hasattr(mp.Process.run, "__wrapped__")
+    mp.set_start_method(method, force=True)
+    P = mp.get_context().Process if control else mp.Process
+    groups = 6  # 0: early parent thread, 1: parent thread, 2-3: children, 4: grandchild, 5: spare
+    arr = mp.Array("q", 2 * n * groups, lock=False)
+    ready = mp.Array("b", groups, lock=False)
+    go = mp.Event()
     probe, nested = mp_probe_setup()
-    ths = [threading.Thread(target=lambda b=b: [probe(arr, b + i, hold) for i in range(n)]) for b in (0, n)]
-    ths[0].start()  # a thread is already using the thread lock when the first child is started
-    time.sleep(hold)
-    kids = [ctx.Process(target=mp_child, args=(arr, 2 * n, n, hold, True, method)),
-            ctx.Process(target=mp_child, args=(arr, 4 * n, n, hold, False, method))]
-    kids[0].start()  # the lock is swapped here, racing with thread 0
+    stop_early = threading.Event()
+    early_calls = [0]
+
+    def early():  # keeps the thread lock busy until everybody is ready, then joins the crowd
+        scratch = mp.Array("q", 2, lock=False)
+        while not stop_early.is_set():
+            probe(scratch, 0, hold / 4)
+            early_calls[0] += 1
+        for i in range(n):
+            probe(arr, i, hold)
+
+    def late():
+        go.wait(60)
+        for i in range(n):
+            (nested if i % 2 else probe)(arr, n + i, hold)
+
+    ths = [threading.Thread(target=early), threading.Thread(target=late)]
+    ths[0].start()
+    time.sleep(0.01)
+    kids = [P(target=mp_child, args=(arr, ready, go, 2 * n, n, hold, 4 * n, control)),
+            P(target=mp_child, args=(arr, ready, go, 3 * n, n, hold, None, control))]
+    kids[0].start()  # the lock is swapped here, racing with the early thread
     ths[1].start()
     kids[1].start()
+    t0 = time.monotonic()
+    while not (ready[2] and ready[3] and ready[4]) and time.monotonic() - t0 < 30:
+        time.sleep(0.005)
+    stop_early.set()
+    go.set()
     for t in ths:
         t.join(60)
     for k in kids:
@@ -344,9 +377,8 @@ def run_mp(case):
     for k in kids:
         if k.is_alive():
             k.kill()
-    stamps = list(arr)
-    return {"stamps": stamps, "alive": alive, "exit": [k.exitcode for k in kids],
-            "lock_type": type(U._tty_lock).__name__}
+    return {"stamps": list(arr), "alive": alive, "exit": [k.exitcode for k in kids],
+            "ready": list(ready), "early_calls": early_calls[0], "lock_type": type(U._tty_lock).__module__ + "." + type(U._tty_lock).__name__}
 
 
 if __name__ == "__main__":
